@@ -45,7 +45,7 @@ def describe(req):
     if f[0] in ("flat", "deep", "conv") and len(f) >= 4:
         d["table"] = describe_table(f[1])
         d["text"] = unhex(f[3])
-    elif f[0] == "lex" and len(f) >= 4:
+    elif f[0] in ("lex", "anytext", "crash", "damage") and len(f) >= 4:
         d["table"] = describe_table(f[1])
         d["text"] = unhex(f[3])
     else:
@@ -158,11 +158,21 @@ PROPS = {
     ),
     "C03": dict(
         level="proof",
-        modules=["Exmex.Props.C03", "Exmex.Props.C03ToDeep", "Exmex.Props.C02", "Exmex.Props.C02Deep", "Exmex.Props.C03Parse"],
+        modules=["Exmex.Props.C03", "Exmex.Props.C03ToDeep", "Exmex.Props.C02", "Exmex.Props.C02Deep", "Exmex.Props.C03Parse", "Exmex.Props.C03Any", "Exmex.Proofs.AnyTextCex"],
         theorems=["Exmex.C03.fromDeep_sound", "Exmex.C03.toDeep_sound", "Exmex.C02.deep_compile_sound",
-                  "Exmex.C03.deep_parse_eval_eq_denote", "Exmex.C03.flat_deep_parse_agree"],
-        rule="random chains x tables x renderings: FlatEx::parse, DeepEx::parse, to_deepex, from_deepex and random conversion histories of length 0..6; variable lists and symbolic values compared with the documented value; operator listings of both forms checked to be sorted, duplicate-free, to contain every operator applied to a variable-dependent operand and nothing absent from the text; non-trivial = at least two binary operators; distinct by request hash",
-        kinds=[dict(kind="forms", quick=24000, thorough=800000,
+                  "Exmex.C03.deep_parse_eval_eq_denote", "Exmex.C03.flat_deep_parse_agree",
+                  "Exmex.C03.flat_deep_agree_any", "Exmex.C03.flatWo_deep_agree_any", "Exmex.C03.flat_deep_agree_any'", "Exmex.C03.accepted_chain",
+                  "Exmex.C03.flat_deep_agree_any_unrestricted_false", "Exmex.AnyTextCex.differ₁"],
+        level_text=("kernel-checked: flat_deep_parse_agree (renderings of well-formed expressions), fromDeep_sound / toDeep_sound (conversions in both directions, any number "
+                    "of times), deep_parse_eval_eq_denote; for ARBITRARY strings: flat_deep_agree_any - every text accepted by both parsers in which no operand directly "
+                    "follows an operand (equivalently, for flat-accepted texts: no group starts with a binary-only operator, flat_deep_agree_any') is the token stream of a "
+                    "well-formed expression (accepted_chain), hence both forms list the same variables and agree at every assignment. Without that condition the claim is "
+                    "FALSE - flat_deep_agree_any_unrestricted_false, differ_1: `*(1+2)(3)` is 5 in the flat and 9 in the deep form - a genuine defect of the library "
+                    "(known finding D13, not repaired: prefix forms like `/ 1 2 * 3` are pinned by the test-suite). Listings: run-time bounds"),
+        rule="random chains x tables x renderings: FlatEx::parse, DeepEx::parse, to_deepex, from_deepex and random conversion histories of length 0..6; sloppy texts (groups starting with binary operators, operands next to each other, nested) on which flat and deep parse must agree whenever both accept; variable lists and symbolic values compared with the documented value; operator listings of both forms checked to be sorted, duplicate-free, to contain every operator applied to a variable-dependent operand and nothing absent from the text; non-trivial = at least two binary operators; distinct by request hash",
+        kinds=[dict(kind="anytext", quick=12000, thorough=400000, corr=["acc", "fv", "wv", "dv"], oracle=[],
+                    oracle_const=[("agree", "ok|-")], nontrivial=lambda req, A, B: A.get("acc", "") == "ooo"),
+               dict(kind="forms", quick=24000, thorough=800000,
                     corr=["f", "d", "f2d", "d2f", "h", "fvars", "dvars", "f2dvars", "d2fvars", "hvars", "br", "ur", "or", "dbr", "dur", "dor", "dtext", "f2dtext", "htext"],
                     oracle=[("f_nf", "spec_nf"), ("d_nf", "spec_nf"), ("f2d_nf", "spec_nf"), ("d2f_nf", "spec_nf"), ("h_nf", "spec_nf"),
                             ("fvars", "svars"), ("dvars", "svars"), ("f2dvars", "svars"), ("d2fvars", "svars"), ("hvars", "svars"),
@@ -296,9 +306,14 @@ PROPS = {
     ),
     "C18": dict(
         level="proof",
-        modules=["Exmex.Props.C18", "Exmex.Props.C16"],
-        theorems=["Exmex.C18.cmp_untouched", "Exmex.C18.piecewise_if", "Exmex.C18.piecewise_else", "Exmex.C18.no_rule_is_error", "Exmex.C16.if_else"],
-        level_text=("kernel-checked: the rule table treats comparisons as carried conditions and `if`/`else` per operand (C18 module), and `a if c else b` selects by the "
+        modules=["Exmex.Props.C18", "Exmex.Props.C18Dual", "Exmex.Props.C05", "Exmex.Props.C16"],
+        theorems=["Exmex.C18.cmp_untouched", "Exmex.C18.piecewise_if", "Exmex.C18.piecewise_else", "Exmex.C18.no_rule_is_error", "Exmex.C16.if_else",
+                  "Exmex.C18.cmp_carried", "Exmex.C18.piecewise_dual", "Exmex.C18.partial_sound_piecewise", "Exmex.C05.partial_sound"],
+        level_text=("kernel-checked: C05.partial_sound covers expressions with comparisons and `if`/`else` (the dual-number reference carries a comparison unchanged and "
+                    "differentiates `x if c`, `y else z` operand-wise); cmp_carried, piecewise_dual: for `(a if c) else b` with a carried condition the reference value and "
+                    "derivative are those of the branch the condition selects (given what `if`/`else` compute on the value type: PWLaws); partial_sound_piecewise: hence the "
+                    "derivative expression of `a if c else b` evaluates to a' where c holds and to b' where it does not. Arithmetic on the value type is not exact arithmetic "
+                    "(error values), so the laws are assumptions about the points considered. Also: the rule table treats comparisons as carried conditions and `if`/`else` per operand (C18 module), and `a if c else b` selects by the "
                     "truth of c (C16.if_else); the derivative engine of the model is tied to partial.rs by exact symbolic correspondence on piecewise expressions; the "
                     "implementation is judged numerically on the real value type against branch-wise textbook differentiation at points off the branch boundaries"),
         rule="nested piecewise expressions `f if cond else g` with arithmetic around them, ints and floats mixed, comparison conditions that depend on a variable; parse_val(..).partial_iter(idxs).eval(point) at 3 tame points (>= 1e-3 away from every comparison boundary) against branch-wise textbook derivatives, order 1 and 2; comparisons at top level must stay untouched; plus the symbolic correspondence of the rule table (hist, piecewise profile); non-trivial = contains a piecewise or comparison node; distinct by request hash",
